@@ -14,6 +14,11 @@ ASSUMPTIONS = [
     "the driver instantiates them with hardware Float and the tie compares results bit for bit",
     "domain of the theorems about the generated code: sample_count <= 2^62, 0 <= trunc(rate) <= 2^31",
 ]
+MANIFEST = dict(
+    text='Theorems over the naturals for all sample counts and rates: minimal cover with less than one entry of slack (C19_hi_cover, C19_hi_minimal), overview size 1024 spanning the count rounded down to the quantisation number (C19_ov_size, C19_ov_rounded), emptiness iff no audio or rate < 210 (C19_empty_iff), monotonicity (C19_mono); C19_gen_hi / C19_gen_ov re-prove on every run that the Lean code regenerated from track_utils.hpp computes this model without undefined behaviour for n <= 2^62, 0 <= rate <= 2^31.',
+    note='Trusted: Lean kernel; translator tools/tr_trackutils.py (clang typed AST -> Lean, every implicit conversion explicit); doubles only through FloatOps (tie compares C++ vs hardware Float bit for bit).',
+    technique='Lean 4 theorems (omega / Nat.div lemmas) over a model regenerated from source + bit-exact differential run',
+    ref='6/C19')
 TRUSTED_EXTRA = ["tools/tr_trackutils.py (clang-14 JSON AST -> Lean translator for track_utils.hpp)"]
 
 
